@@ -76,10 +76,16 @@ V_LEVELS = (1, 3, 6)           # head, mid, foot
 # The unbroken runs of double-width characters make a fold column break wide characters
 # over >=3 lines at odd as well as even text widths (a line that *starts* with a wide
 # character is a code path of its own in chop_cells); "aあいうえお" shifts the parity.
-PLAIN = ["a", "あいうえお", "ab cd", "aあいうえお", "あい", "a\nbb c", "", "abcdefgh"]
+PLAIN = ["a", "あいうえお", "あい うえ おか きく", "ab cd", "aあいうえお", "a\u2705 \u2b50b \u26a1", "あい",
+         "a あい b うえお c", "a\nbb c", "", "abcdefgh"]
+# "あい うえ おか きく" / "a あい b うえお c": >=3 space-separated words of double-width (and mixed)
+# characters: they wrap at word boundaries, so justify x fold meets wide words on full lines.
+# U+2705, U+2B50, U+26A1 are double-width code points that have a CELL_WIDTHS entry of their own
+# (start == end): a lookup that mishandles range ends mis-measures exactly these.
 MENU = PLAIN + ["P", "T"]
+OFF2 = 5          # second filling offset (offset 0 is the first)
 # family A enumerates every filling; shapes with >=3 cells draw from this reduced menu
-A_MENU = ["a", "あいうえお", "ab cd", "aあいうえお", "abcdefgh", "P"]
+A_MENU = ["a", "あいうえお", "あい うえ おか きく", "ab cd", "a\u2705 \u2b50b \u26a1", "P"]
 NESTED_NEED = 5
 T_CHARS = "╔═══╗║y║╚═══╝"
 P_RE = re.compile(r"^╔(═*)╗║x║╚(═*)╝$")
@@ -270,6 +276,88 @@ def impl_widths(desc, W):
     table = build_table(desc)
     maxw = table.width if table.width is not None else W
     return list(table._calculate_column_widths(con, maxw - table._extra_width))
+
+
+# ----------------------------------------------------------------------------- render contexts
+# The same table, handed to the renderer in different surroundings.  Every context gives the
+# table a known width A (for "grid:no_wrap" A is read from the output: the outer column is as
+# wide as the outer table's lines), so all clauses apply unchanged with W := A.
+CONTEXTS = ["plain", "opt:no_wrap", "opt:justify+overflow", "grid:no_wrap", "grid:width", "grid:ratio",
+            "panel", "padding"]
+
+
+def _join_lines(segments):
+    text = "".join(seg.text for seg in segments if not seg.is_control)
+    lines = text.split("\n")
+    if lines and lines[-1] == "":
+        lines.pop()
+    return lines
+
+
+def _region(lines, a, b):
+    return ["".join(_cells_of(l)[a:b]) for l in lines]
+
+
+def render_ctx(desc, W, ctx):
+    """-> (lines belonging to the table, width the table was given)"""
+    if ctx == "plain":
+        return render_lines(desc, W), W
+    from rich import box
+    from rich.padding import Padding
+    from rich.panel import Panel
+    from rich.table import Table
+    con = console()
+    table = build_table(desc)
+    opts = con.options
+    if ctx == "opt:no_wrap":             # console.print(table, no_wrap=True)
+        return _join_lines(con.render(table, opts.update(width=W, no_wrap=True))), W
+    if ctx == "opt:justify+overflow":    # console.print(table, justify="full", overflow="crop")
+        return _join_lines(con.render(table, opts.update(width=W, justify="full", overflow="crop"))), W
+    if ctx.startswith("grid:"):
+        outer = Table.grid(expand=(ctx == "grid:ratio"))
+        if ctx == "grid:no_wrap":
+            outer.add_column(no_wrap=True)
+            ow = W
+        elif ctx == "grid:width":
+            outer.add_column(width=W)
+            ow = W + 2
+        else:
+            outer.add_column(ratio=1)
+            ow = W
+        outer.add_row(table)
+        lines = _join_lines(con.render(outer, opts.update(width=ow)))
+        a = W
+        if ctx == "grid:no_wrap" and lines:
+            a = max(sw(l) for l in lines)
+        return _unpad(desc, a, lines), a
+    if ctx == "panel":
+        lines = _join_lines(con.render(Panel(table, box=box.DOUBLE), opts.update(width=W + 4)))
+        return _unpad(desc, W, _region(lines[1:-1], 2, W + 2)), W
+    if ctx == "padding":
+        lines = _join_lines(con.render(Padding(table, (1, 2, 0, 1)), opts.update(width=W + 3)))
+        return _unpad(desc, W, _region(lines[1:], 1, W + 1)), W
+    raise ValueError(ctx)
+
+
+def _unpad(desc, a, lines):
+    """A container pads the lines of a table that is narrower than the room it was given.
+    Tables whose right edge is a visible border character: strip the blanks after it.
+    Others: the table is as wide as its own width vector says; cut there if only blanks follow."""
+    bx = BOXES.get(_topt(desc, "box"))
+    if bx and _topt(desc, "show_edge") and bx[3][3] != " ":
+        return [l.rstrip(" ") for l in lines]
+    try:
+        w_in = sum(impl_widths(desc, a)) + extra_width(desc)
+    except Exception:
+        return lines
+    out = []
+    for l in lines:
+        cells = _cells_of(l)
+        rest = cells[w_in:]
+        if rest and (rest[0] == "" or any(c.strip() for c in rest)):
+            return lines
+        out.append("".join(cells[:w_in]))
+    return out
 
 
 # ----------------------------------------------------------------------------- judge
@@ -650,11 +738,11 @@ def _units(tier):
         for n in (1, 2, 3):
             for rows in (0, 1, 2, 3):
                 out.append((n, rows, 0, "fold", 2 if rows <= 2 else 1))
-                out.append((n, rows, 3 if rows else 0, "ellipsis", 1))
+                out.append((n, rows, OFF2 if rows else 0, "ellipsis", 1))
     else:
         for n in (1, 2, 3):
             for rows in (0, 1, 2, 3):
-                for off in ((0, 3) if rows else (0,)):
+                for off in ((0, OFF2) if rows else (0,)):
                     for bo in ("fold", "ellipsis"):
                         k = 2
                         if off == 0 and bo == "fold" and (n <= 2 or rows == 2):
@@ -662,8 +750,19 @@ def _units(tier):
                         out.append((n, rows, off, bo, k))
         for rows in (0, 1, 2, 3):
             out.append((4, rows, 0, "fold", 2))
-            out.append((4, rows, 3 if rows else 0, "ellipsis", 1))
+            out.append((4, rows, OFF2 if rows else 0, "ellipsis", 1))
     return out
+
+
+def _ctx_units(tier):
+    """(columns, rows, deviation bound) of family C"""
+    if tier == "quick":
+        return [(1, 1, 1), (1, 2, 1), (2, 0, 1), (2, 1, 1), (2, 2, 1), (3, 1, 1), (3, 2, 1)]
+    return [(1, 1, 2), (1, 2, 2), (2, 0, 2), (2, 1, 2), (2, 2, 2), (3, 1, 1), (3, 2, 1), (3, 3, 1), (4, 1, 1), (4, 2, 1)]
+
+
+J_JUSTIFY = ["left", "center", "right", "full"]
+J_OVERFLOW = ["fold", "crop", "ellipsis"]
 
 
 def _ncombos(natoms, k):
@@ -687,9 +786,21 @@ def plan(tier, seed):
             shards.append({"fam": "A", "n": n, "rows": rows, "i": i, "parts": parts})
     # family P: full product of the padding-related table options x one column width option
     for n, rows in (((2, 1), (3, 1), (2, 2)) if tier == "quick" else ((2, 1), (3, 1), (2, 2), (3, 2), (4, 1))):
-        for off in ((0,) if tier == "quick" else (0, 3)):
+        for off in ((0,) if tier == "quick" else (0, OFF2)):
             for i in range(2):
                 shards.append({"fam": "P", "n": n, "rows": rows, "off": off, "i": i, "parts": 2})
+    # family J: one cell text x justify x overflow x no_wrap (x expand), in every render context
+    for ctx in CONTEXTS:
+        shards.append({"fam": "J", "n": 1, "ctx": ctx})
+    for ctx in (("plain",) if tier == "quick" else CONTEXTS):
+        shards.append({"fam": "J", "n": 2, "ctx": ctx})
+    # family C: the <=k-deviation tables of family O (fold, offset 0) in every non-plain render context
+    for n, rows, k in _ctx_units(tier):
+        for ctx in CONTEXTS[1:]:
+            parts = 1 if k < 2 else (3 if n == 1 else 8)
+            for i in range(parts):
+                shards.append({"fam": "C", "n": n, "rows": rows, "off": 0, "bo": "fold", "k": k, "ctx": ctx,
+                               "i": i, "parts": parts})
     if tier == "thorough":
         for i in range(12):
             shards.append({"fam": "A", "n": 2, "rows": 2, "i": i, "parts": 12})
@@ -745,6 +856,26 @@ def _cases(sh, tier):
             for bo in ("ellipsis", "fold"):
                 for combo in A_TOPTS:
                     yield _apply(n, rows, bo, combo)
+    elif fam == "C":
+        n, nrows, bo = sh["n"], sh["rows"], sh["bo"]
+        rows = filling(n, nrows, sh["off"])
+        for idx, combo in enumerate(_combos(_atoms(n, nrows, bo), sh["k"])):
+            if idx % sh["parts"] == sh["i"]:
+                yield _apply(n, rows, bo, combo)
+    elif fam == "J":
+        for text in MENU:
+            for justify in J_JUSTIFY:
+                for overflow in J_OVERFLOW:
+                    for no_wrap in (False, True):
+                        for expand in (False, True):
+                            col = {"justify": justify, "overflow": overflow}
+                            if no_wrap:
+                                col["no_wrap"] = True
+                            cols, row = [col], [text]
+                            if sh["n"] == 2:
+                                cols, row = [col, {}], [text, "ab cd"]
+                            yield {"t": {"expand": True} if expand else {}, "c": cols, "rows": [row],
+                                   "base_overflow": "fold"}
     elif fam == "P":
         n, nrows = sh["n"], sh["rows"]
         rows = filling(n, nrows, sh["off"])
@@ -771,7 +902,7 @@ def _cases(sh, tier):
     elif fam == "B":
         vec = B_VECTORS[sh["vec"]]
         for bo in ("ellipsis", "fold"):
-            for off in (0, 3):
+            for off in (0, OFF2):
                 yield {"t": dict(vec), "c": [{} for _ in range(6)], "rows": filling(6, 8, off), "base_overflow": bo}
 
 
@@ -786,20 +917,41 @@ def _crash_key(exc):
     return "crash/%s/%s:%s" % (type(exc).__name__, fr.filename.rsplit("/", 1)[-1], fr.name)
 
 
-def run_case(desc, W, res):
+def run_case(desc, W, res, ctx="plain"):
     case = {"t": desc["t"], "c": desc["c"], "rows": desc["rows"], "base_overflow": desc.get("base_overflow", "ellipsis"),
             "W": W}
+    if ctx != "plain":
+        case["ctx"] = ctx
     res.evaluations += 1
     try:
-        lines = render_lines(desc, W)
+        lines, avail = render_ctx(desc, W, ctx)
     except Exception as exc:       # noqa: any exception of the code under test is a finding
         res.violate(_crash_key(exc), case, "".join(traceback.format_exception_only(type(exc), exc)).strip())
         res.sig(("crash",))
         return
-    v = judge(desc, W, lines)
-    for key, detail in v.problems:
-        res.violate(key, case, detail)
-    res.sig(v.sig, nontrivial=v.nontrivial)
+    nested = ctx.split(":")[0] in ("grid", "panel", "padding")
+    tw = _topt(desc, "width")
+    if nested and tw is not None and tw > avail:
+        # a container crops a table that insists on being wider than the room: harness artefact
+        res.sig((ctx, "cropped-by-container"), nontrivial=False)
+        return
+    v = judge(desc, avail, lines)
+    if v.problems and ctx != "plain":
+        # Only what the surroundings break is reported here: if the plain rendering of the same
+        # table at the same width fails too, the failure belongs to (and is reported by) the plain
+        # families, and a container cropping an over-wide table would only blur it.
+        try:
+            plain = judge(desc, avail, render_lines(desc, avail)).problems
+        except Exception:
+            plain = [("crash", "")]
+        if not plain:
+            for key, detail in v.problems:
+                res.violate(key + "@render-context", case, "context %s, table given %d cells: %s" % (ctx, avail, detail))
+    else:
+        for key, detail in v.problems:
+            res.violate(key, case, detail)
+    sig = v.sig if ctx == "plain" else (ctx,) + tuple(v.sig)[:1] + tuple(v.sig)[3:8]
+    res.sig(sig, nontrivial=v.nontrivial)
 
 
 def run_shard(sh, tier, seed):
@@ -810,7 +962,7 @@ def run_shard(sh, tier, seed):
             break
         res.count("tables")
         for W in widths_for(desc):
-            run_case(desc, W, res)
+            run_case(desc, W, res, sh.get("ctx", "plain"))
         if idx % 1501 == 7:
             res.sample({"t": desc["t"], "c": desc["c"], "rows": desc["rows"], "base_overflow": desc["base_overflow"]},
                        limit=1)
@@ -853,5 +1005,5 @@ def describe(tier, seed, res):
 def replay(case):
     res = Result()
     desc = {"t": case["t"], "c": case["c"], "rows": case["rows"], "base_overflow": case.get("base_overflow", "ellipsis")}
-    run_case(desc, case["W"], res)
+    run_case(desc, case["W"], res, case.get("ctx", "plain"))
     return [(k, v[2]) for k, v in sorted(res.violations.items())]
